@@ -1,7 +1,8 @@
 #!/venv/bin/python
 """Copy confirmed seeded changes into /verif/seeded/<id>/ with meta.json."""
 import json, os, shutil, sys, re
-res = json.load(open('/tmp/scratch/seeded_results.json'))
+res = json.load(open(sys.argv[1] if len(sys.argv) > 1 else '/tmp/scratch/seeded_results.json'))
+ROUND = sys.argv[2] if len(sys.argv) > 2 else ''
 out_root = '/verif/seeded'
 os.makedirs(out_root, exist_ok=True)
 for d, v in sorted(res.items()):
@@ -9,11 +10,11 @@ for d, v in sorted(res.items()):
     if not ok:
         print('skip (not confirmed)', d, v.get('suite_tail'))
         continue
-    m = re.match(r'/tmp/wt/(C\d\d)/_seeded/(\d+)', d)
+    m = re.match(r'/tmp/wt\d*/(C\d\d)/_seeded/(\d+)', d)
     if not m:
         continue
     prop, k = m.group(1), m.group(2)
-    sid = f'{prop}-agent-{k}'
+    sid = f'{prop}-agent{ROUND}-{k}'
     dst = os.path.join(out_root, sid)
     os.makedirs(dst, exist_ok=True)
     for fn in ('patch.diff', 'demo.py', 'notes.md'):
